@@ -18,6 +18,10 @@ def specs(tier, seed):
             for tg in tgts:
                 for sym in VAR[rule]:
                     S.append(('rule', rule, topo, tg, (), sym))
+    # the same rule object applied a second time in another state (rules must be memoryless)
+    for rule in ('const', 'reach', 'startprop', 'startlim'):
+        for sym in VAR[rule]:
+            S.append(('rule', rule, 'T3', -1, (), sym, True))
     S.append(('rule', 'const', 'T3', -1, (('start', 'ms'), ('dur', 'min')), None))
     S.append(('rule', 'reach', 'T3', -1, (('tgt', 'rot'), ('brk', 'deg')), ('state', 'window', 'load')))
     S.append(('rule', 'startprop', 'T3', -1, (('tgt', 'deg'),), ('state', 'window')))
@@ -35,8 +39,9 @@ def specs(tier, seed):
 
 
 def build(sp):
-    _, rule, topo, tg, units, sym = sp
-    return rules.RuleApply(rule, topo=topo, target=tg, units=units, tag=':units' if units else '', sym=sym)
+    _, rule, topo, tg, units, sym = sp[:6]
+    return rules.RuleApply(rule, topo=topo, target=tg, units=units, tag=':units' if units else '', sym=sym,
+                           twice=(len(sp) > 6 and sp[6]))
 
 
 JOB_CAP = {'quick': 600, 'thorough': 1800}
@@ -48,7 +53,7 @@ BOUNDS = {
              'in an arbitrary kinematically consistent state: rule parameters (windows, targets, braking angle, multiplier, '
              'limit current), position, speed, motor load torque and time are solver variables; encoder on the last and on an '
              'inner element; parameters also given in non-SI units; StartLimitCurrent\'s proposal is fed to the motor\'s own '
-             'compute_torque / compute_electric_current',
+             'compute_torque / compute_electric_current; each rule object also applied a second time after a first application in another state',
     'thorough': 'quick + every unit of Time/AngularPosition for windows and targets, self-locking chains T4/T7',
 }
 OUTSIDE = ('configuration magnitudes (motor constants, efficiencies) are concrete per topology; whole controlled simulations '
